@@ -22,7 +22,18 @@ use tokio::io::{AsyncReadExt, AsyncWriteExt, DuplexStream};
 pub enum Pk {
     Connect { clean: bool },
     ConnAck { sp: bool, code: u8, recv_max: Option<u16> },
-    Publish { qos: u8, pkid: u16, tag: u32, dup: bool, retain: bool, alias: Option<u16>, topic_empty: bool },
+    Publish {
+        qos: u8,
+        pkid: u16,
+        tag: u32,
+        dup: bool,
+        retain: bool,
+        alias: Option<u16>,
+        topic_empty: bool,
+        /// the topic is the second one of the harness ("in/y" towards the client)
+        #[serde(default)]
+        topic2: bool,
+    },
     PubAck(u16, u8),
     PubRec(u16, u8),
     PubRel(u16, u8),
